@@ -102,7 +102,10 @@ func scC05(r *Run) {
 
 func init() {
 	register(&PropDef{ID: "C04", Quick: 1500, Thorough: 30000, Profiles: []ProfileDef{{Name: "seq", Share: 1, Sc: scC04}}})
-	register(&PropDef{ID: "C05", Quick: 2000, Thorough: 40000, Profiles: []ProfileDef{{Name: "seq", Share: 1, Sc: scC05}}})
+	register(&PropDef{ID: "C05", Quick: 2400, Thorough: 48000, Profiles: []ProfileDef{
+		{Name: "seq", Share: 5, Sc: scC05},
+		{Name: "held", Share: 1, Sc: scC05Held},
+	}})
 }
 
 func scC01(r *Run) {
